@@ -114,11 +114,37 @@ Definition run_built_key (a : sx) : sx :=
   | _ => sx_err "builtkey"
   end.
 
+(** cells parsed from a bag of cells (any header variant, stored hashes or
+    not): one row per ROOT of the bag: ((hash depth) x levels 0..3, level,
+    special, type).  The generator makes every cell a root. *)
+Definition parsed_row (cells : list node) (imms : list (res imm)) (r : nat) : sx :=
+  match nth_error cells r, nth_error imms r with
+  | Some nd, Some ri =>
+      SL [level_info ri 0; level_info ri 1; level_info ri 2; level_info ri 3;
+          sx_nat (mask_level (n_mask nd)); SB (n_special nd); SN (n_type nd)]
+  | _, _ => sx_err "root index"
+  end.
+
+(* c02.parsed: bytes -> 'err | 'panic | (row ...) *)
+Definition run_parsed (a : sx) : sx :=
+  match a with
+  | SBytes bs =>
+      match parse_boc bs with
+      | Ok p =>
+          let imms := eval_dag sha256 0 (p_cells p) in
+          SL (map (parsed_row (p_cells p) imms) (p_roots p))
+      | Err _ => SA "err"
+      | Panic _ => SA "panic"
+      end
+  | _ => sx_err "parsed"
+  end.
+
 (* dispatcher of this file's kinds (private extraction; Dispatch.v has the same lines) *)
 Definition run (kind : string) (a : sx) : sx :=
   if String.eqb kind "c02.history" then run_history a
   else if String.eqb kind "c02.built" then run_built a
   else if String.eqb kind "c02.builtkey" then run_built_key a
+  else if String.eqb kind "c02.parsed" then run_parsed a
   else if String.eqb kind "c02.hashes" then H07.run_hashes a
   else if String.eqb kind "c07.parse" then H07.run_parse a
   else sx_err "kind".
